@@ -609,6 +609,8 @@ func runScenario(d *driver, kind string) {
 				d.round(li)
 			}
 		}
+	case "cachefault":
+		d.cacheFault()
 	case "storm":
 		d.storm()
 	case "recompute":
@@ -787,6 +789,63 @@ func (d *driver) tamperRandom(saved map[string][]byte) {
 				w.mon.tampered = true
 				return
 			}
+		}
+	}
+	// alter the staging bundle a crashed round left behind: the data tile INSIDE the bundle gets one
+	// forged entry (hash tiles untouched), as if the bundle had been rewritten in the bucket
+	if d.r.Intn(4) == 0 {
+		for _, c := range keys {
+			if !strings.HasPrefix(c, "staging/") {
+				continue
+			}
+			o := w.objects[c]
+			ups, err := expandStaging(o.data)
+			if err != nil {
+				break
+			}
+			changed := false
+			for ui := range ups {
+				if !strings.HasPrefix(ups[ui].key, "tile/data/") {
+					continue
+				}
+				var es []*sunlight.LogEntry
+				for rest := ups[ui].data; len(rest) > 0; {
+					e, r2, err := sunlight.ReadTileLeaf(rest)
+					if err != nil {
+						es = nil
+						break
+					}
+					es = append(es, e)
+					rest = r2
+				}
+				if len(es) == 0 {
+					continue
+				}
+				i := d.r.Intn(len(es))
+				g := make([]byte, 5+d.r.Intn(40))
+				d.r.Read(g)
+				es[i].Certificate = g
+				var newRaw []byte
+				for _, e := range es {
+					newRaw = sunlight.AppendTileLeaf(newRaw, e)
+				}
+				ups[ui].data = newRaw
+				changed = true
+				break
+			}
+			if !changed {
+				break
+			}
+			w.objects[c] = object{data: packStaging(o.data, ups), imm: o.imm}
+			var parts []string
+			for _, u := range ups {
+				parts = append(parts, u.key+":"+strings.TrimSuffix(u.code, "!badopts")+":"+hx(u.data))
+			}
+			w.logf(nil, "ev|tamper|%s|staging|%s", c, strings.Join(parts, ","))
+			d.stats["tamper"]++
+			d.stats["tamper-altered-staging-bundle"]++
+			w.mon.tampered = true
+			return
 		}
 	}
 	// forge one entry of the right-edge partial data tile: same shape, same index and timestamp, but
